@@ -21,7 +21,7 @@ ASSUMPTIONS = [
     "skipped empty labels, high*65536+low, sum with None counted 0, round(v*i), documented thresholds of grid_in_out) are the oracle's",
     "a rounding tie within 1e-6 accepts either neighbour",
 ]
-MUST = ["small_codes_in_code_sensors", "earlier_object_polled_again", "end_to_end_results", "end_to_end_with_mppt_block", "end_to_end_labels", "bitmap4_whole_table_checked", "label_pairs_checked", "bitmap4_checked", "bitmap22_checked", "nonempty_bitmap_labels", "sum_checked", "product_checked",
+MUST = ["source_constants_as_register_contents", "small_codes_in_code_sensors", "earlier_object_polled_again", "end_to_end_results", "end_to_end_with_mppt_block", "end_to_end_labels", "bitmap4_whole_table_checked", "label_pairs_checked", "bitmap4_checked", "bitmap22_checked", "nonempty_bitmap_labels", "sum_checked", "product_checked",
         "grid_in_out_checked", "house_consumption_checked", "es_signed_powers_checked"]
 EXHAUSTIVE = {"quick": False, "thorough": True}
 
@@ -151,17 +151,31 @@ def check_formulas(spec, part):
     g = env.goodwe()
     rnd = random.Random(spec["seed"])
     MR = g.inverter.Inverter._map_response
-    for _ in range(spec["n"]):
+    # boundary-seeking contents: each small integer constant found in the source under test (with neighbours and negations) held by every
+    # word / every double word (both alignments) of the block at once - the formulas branch on comparisons against such constants
+    hv = [v for v in env.harvest_ints() if abs(v) <= 1100 or abs(v) in (32766, 32767, 32768, 32769, 65534, 65535, 65536)]
+    forced_list = [(v, lay) for k, v in enumerate(hv) if k % spec.get("hv_stride", 1) == spec.get("hv_phase", 0) % spec.get("hv_stride", 1)
+                   for lay in (0, 1, 2)]
+    for it in range(spec["n"] + len(forced_list)):
+        forced = forced_list[it - spec["n"]] if it >= spec["n"] else None
         for fam, port in (("ET", rnd.choice((8899, 502))), ("DT", rnd.choice((8899, 502))), ("ES", 8899)):
             for block in blocks.family_blocks(g, fam, port):
                 if block["name"] not in ("running", "runtime"):
                     continue
-                style = rnd.choice(("random", "mixed", "sentinel", "zero", "ff"))
+                style = rnd.choice(("random", "mixed", "sentinel", "zero", "ff", "harvest"))
                 pl = bytearray(blocks.styled_payload(rnd, block["nbytes"], style))
-                if fam == "ET" and rnd.random() < 0.5:
+                mod = forced is None
+                if forced is not None:
+                    v_, lay = forced
+                    n_ = block["nbytes"]
+                    w_, dw_ = (v_ & 0xFFFF).to_bytes(2, "big"), (v_ & 0xFFFFFFFF).to_bytes(4, "big")
+                    pl = bytearray(((w_ * (n_ // 2 + 1)), (dw_ * (n_ // 4 + 1)), (dw_[2:] + dw_ * (n_ // 4 + 1)))[lay][:n_])
+                    style = "harvest-uniform"
+                    part.count("source_constants_as_register_contents")
+                if mod and fam == "ET" and rnd.random() < 0.5:
                     p = blocks.pos_of(block, 35140)
                     pl[p:p + 2] = rnd.choice((-92, -91, -90, -89, 0, 89, 90, 91, 32767, -32768)).to_bytes(2, "big", signed=True)
-                if rnd.random() < 0.6:
+                if mod and rnd.random() < 0.6:
                     # the code sensors (those with a '<id>_label' companion) hold small codes - the values the formulas branch on -
                     # instead of random bytes: every combination of e.g. battery_mode x grid_in_out comes up
                     ids_ = {sn.id_ for sn in block["sensors"]}
@@ -171,7 +185,7 @@ def check_formulas(spec, part):
                             pl[pc:pc + sn.size_] = rnd.choice((0, 1, 2, 3, 4, 5, 2, 3)).to_bytes(sn.size_, "big")
                     part.count("small_codes_in_code_sensors")
                 bm = [sn for sn in block["sensors"] if type(sn).__name__ == "EnumBitmap4"]
-                if bm and rnd.random() < 0.5:
+                if mod and bm and rnd.random() < 0.5:
                     word = rnd.choice((1, 2, 0x2001, 0x80000000, rnd.randrange(1, 2 ** 32), 1 << rnd.randrange(32))).to_bytes(4, "big")
                     for sn in bm:       # the same non-zero word in sensors that use DIFFERENT label tables
                         p4 = blocks.pos_of(block, sn)
@@ -377,7 +391,8 @@ def plan(tier, seed):
     nsh = 8 if tier == "quick" else 16
     specs = [{"mode": "labels", "seed": f"{seed}:C13:L:{i}", "full": tier != "quick", "shards": nsh, "shard": i} for i in range(nsh)]
     for i in range(4 if tier == "quick" else 16):
-        specs.append({"mode": "formulas", "seed": f"{seed}:C13:F:{i}", "n": 800 if tier == "quick" else 8000})
+        specs.append({"mode": "formulas", "seed": f"{seed}:C13:F:{i}", "n": 800 if tier == "quick" else 8000,
+                      "hv_stride": 4 if tier == "quick" else 16, "hv_phase": i})
     for i in range(4 if tier == "quick" else 16):
         specs.append({"mode": "e2e", "seed": f"{seed}:C13:E:{i}", "n": 40 if tier == "quick" else 1500})
     return specs
